@@ -7,6 +7,7 @@ JEncDec(e) ==
   << R("C16", "probe_set_up", TRUE, r.setup /\ r.enc_ok, cls),
      R("C16", "ciphertext_layout", r.setup /\ r.enc_ok, r.plainlen = Len(e["in"]) /\ r.ctlen = 32 + 12 + r.plainlen + 16, cls),
      R("C16", "decrypt_of_encrypt_is_identity", r.setup /\ r.enc_ok, r.dec_ok /\ r.dec_same /\ r.second_same, cls),
+     R("C16", "matching_key_decrypts_in_every_documented_form", r.setup /\ r.enc_ok /\ r.dec_ok, r.dec_forms_same, cls),
      R("C16", "wrong_private_key_rejected", r.setup /\ r.enc_ok, r.wrongkey_rejected /\ r.wrongkey_bytes_rejected, cls),
      R("C16", "modified_ciphertext_rejected", r.setup /\ r.enc_ok /\ r.nmods >= 1, Len(r.accepted_mods) = 0, cls),
      R("C16", "encryption_is_randomised", r.setup /\ r.enc_ok, r.second_differs, cls) >>
